@@ -17,8 +17,8 @@ META = {
     "assumptions": ["the relations are the ones in the statement; Python's dict.fromkeys defines 'first occurrence of every element'"],
     "exhaustive": {"quick": True, "thorough": True},
     "floors": {
-        "quick": {"channel_pairs": 256, "channel_triples": 4096, "qubit_pairs": 900, "qubit_lookalike_pairs": 10, "edge_pairs": 20000, "sequences": 3900},
-        "thorough": {"channel_pairs": 256, "channel_triples": 4096, "edge_pairs": 60000, "sequences": 39000},
+        "quick": {"channel_pairs": 256, "channel_pairs_large_index": 400, "channel_triples": 4096, "qubit_pairs": 900, "qubit_lookalike_pairs": 10, "edge_handed_list_edits": 200, "edge_pairs": 20000, "sequences": 3900},
+        "thorough": {"channel_pairs": 256, "channel_pairs_large_index": 400, "channel_triples": 4096, "edge_pairs": 60000, "sequences": 39000},
     },
 }
 
@@ -62,6 +62,18 @@ def run_channels(acc: Acc):
         got = any(x in [b, c] for x in [a])
         if got != (want(a, b) or want(a, c)):
             acc.finding("channel/membership", "membership in a list of two identifiers does not follow the matching relation", {"a": repr(a), "b": repr(b), "c": repr(c)}, None)
+    # the same relation for large qubit indices whose int objects are created independently (no small-int sharing, no literal
+    # sharing): "names the same qubit" is about the VALUE of the index
+    base = int("250")
+    big = [base + k for k in (0, 7, 750, 10 ** 6, 2 ** 40)]
+    for x, y in itertools.product(big, repeat=2):
+        for ca, cb in itertools.product(chans, chans):
+            a = ChannelIdentifier(_id=int(str(x)), _channel=ca)
+            b = ChannelIdentifier(_id=int(str(y)) + 0, _channel=cb)
+            acc.count("channel_pairs_large_index")
+            if (a == b) != want(a, b) or (b == a) != want(a, b) or (a in [b]) != want(a, b):
+                acc.finding("channel/match-large-index", "channel identifiers with large qubit indices do not follow the matching relation", {"a": repr(a), "b": repr(b)},
+                            {"library": a == b, "expected": want(a, b)})
     for a in ids:
         if a == (a.id, a.channel) or a == "x" or (a == None):  # noqa: E711
             acc.finding("channel/foreign-type", "a channel identifier equals an object of a different type", {"a": repr(a)}, None)
@@ -127,6 +139,16 @@ def run_edges(acc: Acc, shard: Dict[str, Any]):
                 acc.finding("edge/dict-lookup", "an edge is not found under its reversed orientation in a dict/set/list", case, None)
         if ea.contains(QubitIDObj(a0)) is not True or ea.get_connected_qubit_id(QubitIDObj(a0)).id != a1:
             acc.finding("edge/contains", "edge does not contain / connect its own qubits", {"a": [a0, a1]}, None)
+        # what the identifier hands out is a fresh list: editing it must not change the identifier
+        handed = ea.qubit_ids
+        if isinstance(handed, list) and handed:
+            handed.remove(handed[0])
+            handed.append(QubitIDObj("zz"))
+            acc.count("edge_handed_list_edits")
+            fresh = EdgeIDObj(QubitIDObj(a1), QubitIDObj(a0))
+            if not (ea == fresh and fresh == ea and ea == ea and hash(ea) == hash(fresh) and ea.contains(QubitIDObj(a0)) and ea.contains(QubitIDObj(a1))
+                    and sorted(q.id for q in ea.qubit_ids) == sorted([a0, a1])):
+                acc.finding("edge/changed-by-caller", "editing the list returned by qubit_ids changed the edge identifier (equality / contains / qubit_ids)", {"a": [a0, a1]}, None)
         for other in names:
             if other not in (a0, a1) and ea.contains(QubitIDObj(other)):
                 acc.finding("edge/contains", "edge claims to contain a qubit it does not connect", {"a": [a0, a1], "other": other}, None)
